@@ -13,6 +13,14 @@ CLAIMED = {
          'gcd/lcm/pow/shift are uninterpreted (routing claim). Outside: is_prime, factorize.',
     design='§7 C06', technique='symbolic execution of rustc MIR + SMT (z3), unbounded integers'),
 }
+CLAIMED['C08'] = dict(
+    text='Bounded symbolic model checking of the real MIR of NNum::{eq, partial_cmp, total_eq, min, max, min_consuming, max_consuming} (through project_to_reals, '
+         'NNumReal::*, cmp_nint_f64, to_nint_if_int, NInt::{eq,cmp}), lib::ncmp and the Obj/Seq PartialOrd impls: for EVERY pair of numbers of every level/representation '
+         '(all integers, all rationals, all abstract doubles incl. NaN, +-inf, +-0) the answer equals the exact order on the extended reals; lists compare lexicographically; '
+         'different kinds are an error. Trichotomy/symmetry/transitivity follow because each pairwise answer is proved equal to the mathematical order.',
+    note='Trusted: num-bigint/num-rational implement Z/Q; a finite double is modelled as an arbitrary real (sound over-approximation for the exact float operations on these paths). '
+         'Bound: lists of length <= 2 (quick) / <= 3 (thorough). Outside: complex under <, std sort_by, string/bytes order.',
+    design='§7 C08', technique='symbolic execution of rustc MIR + SMT (z3) over Int/Real with an abstract float domain')
 NOT_APPLICABLE = {
  'C13': 'sequence library vs executable specification: the deciding content is std collections glued by one-line closures over whole sequences; not encodable as a bounded solver query over noulith code (DESIGN §9); parts decided under C08/C09/C10/C11/C14',
  'C17': 'freeze: semantic equivalence of two recursive traversals over programs; a bounded solver query cannot carry it (DESIGN §9)',
